@@ -95,4 +95,212 @@ theorem combine_exact (cfg : Cfg) (ctx : Ctx) (env : Env) (call : String → Mar
       by_cases hl : cfg.logRateLimit = "" <;>
         simp [runRules, Rule.matches, hm', hl, Clause.matches, clausesMatch]
 
+/-! ### `SplitPortList` keeps every port, in order -/
+
+def splitStep (st : List (List PortRange) × List PortRange × Nat) (pr : PortRange) :
+    List (List PortRange) × List PortRange × Nat :=
+  let need := if pr.first = pr.last then 1 else 2
+  if st.2.2 < need then (st.1 ++ [st.2.1], [pr], 15 - need)
+  else (st.1, st.2.1 ++ [pr], st.2.2 - need)
+
+theorem splitPortList_eq (ports : List PortRange) :
+    splitPortList ports =
+      (let r := ports.foldl splitStep ([], [], 15); if r.2.1.isEmpty then r.1 else r.1 ++ [r.2.1]) := by
+  unfold splitPortList
+  have : (fun (st : List (List PortRange) × List PortRange × Nat) (pr : PortRange) =>
+      match st with
+      | (splits, cur, avail) =>
+        let need := if pr.first = pr.last then 1 else 2
+        if avail < need then (splits ++ [cur], [pr], 15 - need)
+        else (splits, cur ++ [pr], avail - need)) = splitStep := by
+    funext st pr; obtain ⟨a, b, c⟩ := st; rfl
+  simp only [this]
+
+theorem foldl_splitStep_flatten (ports : List PortRange) (st : List (List PortRange) × List PortRange × Nat) :
+    let r := ports.foldl splitStep st
+    r.1.flatten ++ r.2.1 = st.1.flatten ++ st.2.1 ++ ports := by
+  induction ports generalizing st with
+  | nil => simp
+  | cons p ps ih =>
+    simp only [List.foldl_cons]
+    have := ih (splitStep st p)
+    simp only at this ⊢
+    rw [this]
+    have hs : (splitStep st p).1.flatten ++ (splitStep st p).2.1 = st.1.flatten ++ st.2.1 ++ [p] := by
+      unfold splitStep
+      simp only
+      split <;> split <;> simp
+    rw [hs]; simp
+
+theorem splitPortList_flatten (ports : List PortRange) : (splitPortList ports).flatten = ports := by
+  rw [splitPortList_eq]
+  have := foldl_splitStep_flatten ports ([], [], 15)
+  simp only [List.flatten_nil, List.nil_append] at this
+  simp only
+  split
+  · rename_i h
+    have h' : (ports.foldl splitStep ([], [], 15)).2.1 = [] := by simpa using h
+    rw [h', List.append_nil] at this
+    exact this
+  · simpa using this
+
+theorem inRanges_flatten (ls : List (List PortRange)) (p : Nat) :
+    inRanges ls.flatten p = ls.any (fun l => inRanges l p) := by
+  simp [inRanges, List.any_flatten]
+
+/-! ### `filterNets` / `FilterRuleToIPVersion` preserve the meaning of the rule -/
+
+/-- the kernel agrees that the catch-all CIDRs contain every address -/
+def EnvCatchAll (env : Env) : Prop :=
+  ∀ a, env.netContains "0.0.0.0/0" a = true ∧ env.netContains "::/0" a = true
+
+theorem any_netHas_filter (env : Env) (v6 : Bool) (nets : List String) (a : Nat) :
+    (nets.filter (fun c => cidrIsV6 c == v6)).any (fun c => netHas env v6 c a) =
+      nets.any (fun c => netHas env v6 c a) := by
+  induction nets with
+  | nil => rfl
+  | cons c cs ih =>
+    simp only [List.filter_cons, List.any_cons]
+    by_cases h : (cidrIsV6 c == v6) = true
+    · simp [h, ih]
+    · have h' : (cidrIsV6 c == v6) = false := by simpa using h
+      simp [h', ih, netHas]
+
+theorem familyOK_filter (v6 : Bool) (nets : List String) :
+    familyOK v6 (nets.filter (fun c => cidrIsV6 c == v6)) = true := by
+  unfold familyOK
+  cases h : nets.filter (fun c => cidrIsV6 c == v6) with
+  | nil => simp
+  | cons c cs =>
+    have : c ∈ nets.filter (fun c => cidrIsV6 c == v6) := by rw [h]; exact List.mem_cons_self
+    have hc := (List.mem_filter.1 this).2
+    simp [hc]
+
+theorem familyOK_iff (v6 : Bool) (nets : List String) :
+    familyOK v6 nets = (nets.isEmpty || !(nets.filter (fun c => cidrIsV6 c == v6)).isEmpty) := by
+  unfold familyOK
+  congr 1
+  induction nets with
+  | nil => rfl
+  | cons c cs ih =>
+    simp only [List.any_cons, List.filter_cons]
+    by_cases h : (cidrIsV6 c == v6) = true
+    · simp [h]
+    · have h' : (cidrIsV6 c == v6) = false := by simpa using h
+      simp [h', ih]
+
+theorem filterNets_pos (env : Env) (v6 : Bool) (nets : List String) (a : Nat) :
+    ((filterNets nets v6 false).2 = true → familyOK v6 nets = false) ∧
+    ((filterNets nets v6 false).2 = false →
+      familyOK v6 nets = true ∧ familyOK v6 (filterNets nets v6 false).1 = true ∧
+      ((filterNets nets v6 false).1.isEmpty || (filterNets nets v6 false).1.any (fun c => netHas env v6 c a)) =
+        (nets.isEmpty || nets.any (fun c => netHas env v6 c a))) := by
+  unfold filterNets
+  by_cases hn : nets.isEmpty = true
+  · have : nets = [] := by simpa using hn
+    subst this; simp [familyOK]
+  · have hn' : nets.isEmpty = false := by simpa using hn
+    simp only [hn', Bool.false_eq_true, if_false, Bool.false_and]
+    rw [familyOK_iff, hn']
+    constructor
+    · intro h; simp [h]
+    · intro h
+      refine ⟨by simp [h], familyOK_filter v6 nets, ?_⟩
+      rw [any_netHas_filter, h]
+
+theorem filterNets_neg (env : Env) (henv : EnvCatchAll env) (v6 : Bool) (nets : List String) (a : Nat) :
+    ((filterNets nets v6 true).2 = true →
+      (familyOK v6 nets && !nets.any (fun c => netHas env v6 c a)) = false) ∧
+    ((filterNets nets v6 true).2 = false →
+      familyOK v6 nets = true ∧ familyOK v6 (filterNets nets v6 true).1 = true ∧
+      (filterNets nets v6 true).1.any (fun c => netHas env v6 c a) = nets.any (fun c => netHas env v6 c a)) := by
+  unfold filterNets
+  by_cases hn : nets.isEmpty = true
+  · have : nets = [] := by simpa using hn
+    subst this; simp [familyOK]
+  · have hn' : nets.isEmpty = false := by simpa using hn
+    simp only [hn', Bool.false_eq_true, if_false, Bool.true_and]
+    by_cases hc : (nets.filter (fun c => cidrIsV6 c == v6)).any (fun c => isCatchAll c v6) = true
+    · simp only [hc, if_true, true_implies, Bool.true_eq_false, false_implies, and_true]
+      obtain ⟨c, hcm, hca⟩ := List.any_eq_true.1 hc
+      have hcn := List.mem_filter.1 hcm
+      have hhas : netHas env v6 c a = true := by
+        simp only [netHas, hcn.2, Bool.true_and]
+        simp only [isCatchAll, Bool.or_eq_true, Bool.and_eq_true, Bool.not_eq_true', beq_iff_eq] at hca
+        rcases hca with ⟨_, h⟩ | ⟨_, h⟩
+        · rw [h]; exact (henv a).1
+        · rw [h]; exact (henv a).2
+      have : nets.any (fun c => netHas env v6 c a) = true := List.any_eq_true.2 ⟨c, hcn.1, hhas⟩
+      simp [this]
+    · have hc' : (nets.filter (fun c => cidrIsV6 c == v6)).any (fun c => isCatchAll c v6) = false := by
+        simpa using hc
+      simp only [hc', Bool.false_eq_true, if_false]
+      rw [familyOK_iff, hn']
+      constructor
+      · intro h; simp [h]
+      · intro h
+        exact ⟨by simp [h], familyOK_filter v6 nets, any_netHas_filter env v6 nets a⟩
+
+theorem filterRule_preserves (env : Env) (henv : EnvCatchAll env) (setName : String → String)
+    (r : Policy.Rule) (pkt : Packet) :
+    ruleMatches env setName r pkt =
+      match filterRuleToIPVersion pkt.v6 r with
+      | none => false
+      | some rc => ruleMatches env setName rc pkt := by
+  have p1 := filterNets_pos env pkt.v6 r.srcNet pkt.src
+  have p2 := filterNets_neg env henv pkt.v6 r.notSrcNet pkt.src
+  have p3 := filterNets_pos env pkt.v6 r.dstNet pkt.dst
+  have p4 := filterNets_neg env henv pkt.v6 r.notDstNet pkt.dst
+  unfold filterRuleToIPVersion
+  by_cases hv : r.ipVersion ≠ 0 ∧ r.ipVersion ≠ (if pkt.v6 = true then 6 else 4)
+  · rw [if_pos hv]
+    simp only [ruleMatches]
+    have : (r.ipVersion == 0 || r.ipVersion == if pkt.v6 = true then 6 else 4) = false := by
+      simp [hv.1, hv.2]
+    simp [this]
+  · rw [if_neg hv]
+    have hv' : (r.ipVersion == 0 || r.ipVersion == if pkt.v6 = true then 6 else 4) = true := by
+      simp only [Bool.or_eq_true, beq_iff_eq]
+      by_cases h0 : r.ipVersion = 0
+      · exact Or.inl h0
+      · right
+        by_cases h1 : r.ipVersion = if pkt.v6 = true then 6 else 4
+        · exact h1
+        · exact absurd ⟨h0, h1⟩ hv
+    rcases hf1 : filterNets r.srcNet pkt.v6 false with ⟨sn, a1⟩
+    rcases hf2 : filterNets r.notSrcNet pkt.v6 true with ⟨nsn, a2⟩
+    rcases hf3 : filterNets r.dstNet pkt.v6 false with ⟨dn, a3⟩
+    rcases hf4 : filterNets r.notDstNet pkt.v6 true with ⟨ndn, a4⟩
+    rw [hf1] at p1; rw [hf2] at p2; rw [hf3] at p3; rw [hf4] at p4
+    simp only at p1 p2 p3 p4 ⊢
+    cases a1
+    · cases a2
+      · cases a3
+        · cases a4
+          · -- nothing filtered out completely: the filtered rule means the same
+            obtain ⟨f1, g1, e1⟩ := p1.2 rfl
+            obtain ⟨f2, g2, e2⟩ := p2.2 rfl
+            obtain ⟨f3, g3, e3⟩ := p3.2 rfl
+            obtain ⟨f4, g4, e4⟩ := p4.2 rfl
+            simp only [Bool.false_eq_true, if_false, ruleMatches, netsMatch, restMatch,
+              f1, f2, f3, f4, g1, g2, g3, g4, e1, e2, e3, e4]
+          · have := p4.1 rfl
+            simp only [Bool.false_eq_true, if_false, if_true, ruleMatches, netsMatch]
+            simp only [Bool.and_eq_false_iff] at this ⊢
+            rcases this with h | h
+            · simp [h]
+            · simp [h]
+        · have := p3.1 rfl
+          simp only [Bool.false_eq_true, if_false, if_true, ruleMatches, netsMatch]
+          simp [this]
+      · have := p2.1 rfl
+        simp only [Bool.false_eq_true, if_false, if_true, ruleMatches, netsMatch]
+        simp only [Bool.and_eq_false_iff] at this
+        rcases this with h | h
+        · simp [h]
+        · simp [h]
+    · have := p1.1 rfl
+      simp only [if_true, ruleMatches, netsMatch]
+      simp [this]
+
 end CalicoVerif.C08
